@@ -369,6 +369,7 @@ func (h *History) script() string {
 	fmt.Fprintf(&sb, "func app2(s []%s, a %s, b %s) []%s { return append(s, a, b) }\n", T, T, T, T)
 	fmt.Fprintf(&sb, "func app3(s []%s, a, b, c %s) []%s { t := append(s, a, b, c); return t }\n", T, T, T)
 	fmt.Fprintf(&sb, "func apps(s []%s, t []%s) []%s { return append(s, t...) }\n", T, T, T)
+	fmt.Fprintf(&sb, "func cpy(d []%s, s []%s) int { return copy(d, s) }\n", T, T)
 	for k := 1; k < len(fixedVals); k++ {
 		fmt.Fprintf(&sb, "func fixed%d() []%s {\n\treturn []%s{%s}\n}\n", k, T, T, h.litList(fixedVals[k]))
 	}
@@ -382,6 +383,10 @@ func (h *History) script() string {
 	}
 	fmt.Fprintf(&sb, "%sia, ib := 0, 0\n%s_ = ia\n%s_ = ib\n", ind, ind, ind)
 	dump := fmt.Sprintf("%sfmt.Println(len(s0), s0, len(s1), s1, len(s2), s2, len(s3), s3, 0)\n", ind)
+	if h.Elem == "byte" {
+		// after every step each slice also goes to a string and back: the bytes it has now, however they were written
+		dump += fmt.Sprintf("%sfmt.Println(\"str\", []byte(string(s0)), []byte(string(s1)), []byte(string(s2)), []byte(string(s3)))\n", ind)
+	}
 	for n, op := range h.Ops {
 		fmt.Fprintf(&sb, "%sfmt.Println(\"step\", %d)\n", ind, n)
 		switch op.Op {
@@ -438,11 +443,19 @@ func (h *History) script() string {
 		case "copy":
 			fmt.Fprintf(&sb, "%scopy(s%d, s%d)\n", ind, op.Dst, op.Src)
 		case "copyn":
+			if n%2 == 1 { // the count is the result of a function that returns the call of copy
+				fmt.Fprintf(&sb, "%sn%d := cpy(s%d, s%d)\n%sfmt.Println(\"copied\", n%d)\n", ind, n, op.Dst, op.Src, ind, n)
+				break
+			}
 			fmt.Fprintf(&sb, "%sn%d := copy(s%d, s%d)\n%sfmt.Println(\"copied\", n%d)\n", ind, n, op.Dst, op.Src, ind, n)
 		case "copystr":
 			fmt.Fprintf(&sb, "%scopy(s%d, %q)\n", ind, op.Dst, op.Str)
 		case "len":
 			fmt.Fprintf(&sb, "%sfmt.Println(\"len\", len(s%d))\n", ind, op.Dst)
+			if h.Elem == "byte" {
+				// the bytes as a string and back: the current bytes, however they were written
+				fmt.Fprintf(&sb, "%sfmt.Println(\"str\", []byte(string(s%d)))\n", ind, op.Dst)
+			}
 		case "range":
 			fmt.Fprintf(&sb, "%sfor i, v := range s%d {\n%s\tfmt.Println(\"r\", i, v, %s)\n%s}\n", ind, op.Dst, ind, h.probeExpr(), ind)
 		}
@@ -479,6 +492,9 @@ func (h *History) expected() (out string, panics bool) {
 		switch op.Op {
 		case "len":
 			fmt.Fprintf(&sb, "len %d\n", m.v[op.Dst].n)
+			if h.Elem == "byte" {
+				fmt.Fprintf(&sb, "str %s\n", h.showSlice(m.v[op.Dst].get()))
+			}
 		case "range":
 			for i, v := range m.v[op.Dst].get() {
 				fmt.Fprintf(&sb, "r %d %s %s\n", i, h.show(v), h.probe(v))
@@ -488,6 +504,13 @@ func (h *History) expected() (out string, panics bool) {
 			fmt.Fprintf(&sb, "%d %s ", m.v[i].n, h.showSlice(m.v[i].get()))
 		}
 		sb.WriteString("0\n")
+		if h.Elem == "byte" {
+			sb.WriteString("str")
+			for i := 0; i < nVars; i++ {
+				sb.WriteString(" " + h.showSlice(m.v[i].get()))
+			}
+			sb.WriteString("\n")
+		}
 	}
 	return sb.String(), false
 }
@@ -546,6 +569,9 @@ func (h *History) goSlices() (out string, panicked bool) {
 			}
 		case "len":
 			fmt.Fprintf(&sb, "len %d\n", len(v[op.Dst]))
+			if h.Elem == "byte" {
+				fmt.Fprintf(&sb, "str %s\n", h.showSlice(v[op.Dst]))
+			}
 		case "range":
 			for i, x := range v[op.Dst] {
 				fmt.Fprintf(&sb, "r %d %s %s\n", i, h.show(x), h.probe(x))
@@ -555,6 +581,13 @@ func (h *History) goSlices() (out string, panicked bool) {
 			fmt.Fprintf(&sb, "%d %s ", len(v[i]), h.showSlice(v[i]))
 		}
 		sb.WriteString("0\n")
+		if h.Elem == "byte" {
+			sb.WriteString("str")
+			for i := 0; i < nVars; i++ {
+				sb.WriteString(" " + h.showSlice(v[i]))
+			}
+			sb.WriteString("\n")
+		}
 	}
 	return sb.String(), false
 }
